@@ -782,6 +782,94 @@ fn cmd_cmap(nmap: usize) {
     println!("{{\"cmd\":\"cmap\",\"bound\":\"hand-written CMaps with 1..4-byte codes (bfchar, bfrange offset form crossing a row, bfrange array form incl. a surrogate pair); ToUnicodeCMapBuilder with every set of <= {nmap} mappings over 4-5 codes x 6 strings\",\"evaluated\":{},\"disagreements\":[{}]}}", evaluated, bad.join(","));
 }
 
+// C16 Eb: page operations on a hand-written 3-page source whose pages differ in everything the property names: one page with a
+// /Contents ARRAY whose streams do not end in white space, one with its own /Rotate and /MediaBox, one inheriting MediaBox and
+// Rotate from two ancestor levels. extract (every subset order of <= 2 pages), split + merge, reverse, swap, move, rotate by each
+// angle: output page k must be input page perm[k] with the same content tokens, MediaBox and rotation (+ angle).
+fn cmd_pageops() {
+    use oxidize_pdf::operations::{extract_pages_to_file, merge_pdf_files, reverse_pdf_pages, rotate_all_pages, split_into_pages, RotationAngle};
+    use oxidize_pdf::parser::content::ContentParser;
+    use oxidize_pdf::parser::PdfReader;
+    let dir = std::env::temp_dir().join(format!("verif_pageops_{}", std::process::id()));
+    let _ = std::fs::create_dir_all(&dir);
+    let stream = |d: &str| format!("<< /Length {} >>\nstream\n{d}\nendstream", d.len());
+    let bodies: Vec<String> = vec![
+        "<< /Type /Catalog /Pages 2 0 R >>".into(),
+        "<< /Type /Pages /Kids [3 0 R 4 0 R] /Count 3 /MediaBox [0 0 400 600] /Rotate 90 >>".into(),
+        "<< /Type /Page /Parent 2 0 R /Contents [6 0 R 7 0 R 8 0 R] /Resources << /Font << /F1 10 0 R >> >> >>".into(),   // page A: multi-stream, inherits box + rotate 90
+        "<< /Type /Pages /Parent 2 0 R /Kids [5 0 R 11 0 R] /Count 2 /MediaBox [0 0 200 300] /Rotate 180 >>".into(),
+        "<< /Type /Page /Parent 4 0 R /Contents 9 0 R /Resources << /Font << /F1 10 0 R >> >> >>".into(),                   // page B: inherits from the NEARER ancestor (200x300, 180)
+        stream("q 1 0 0 1 10 20 cm"), stream("BT /F1 12 Tf (page A) Tj ET"), stream("Q"),
+        stream("BT /F1 9 Tf 5 5 Td (page B) Tj ET"),
+        "<< /Type /Font /Subtype /Type1 /BaseFont /Helvetica >>".into(),
+        "<< /Type /Page /Parent 4 0 R /MediaBox [0 0 150 250] /Rotate 270 /Contents 12 0 R /Resources << /Font << /F1 10 0 R >> >> >>".into(),   // page C: own box and rotate
+        stream("0.5 g 10 10 30 40 re f BT /F1 8 Tf (page C) Tj ET"),
+    ];
+    let mut pdf = b"%PDF-1.4\n".to_vec(); let mut offs = vec![];
+    for (i, b) in bodies.iter().enumerate() { offs.push(pdf.len()); pdf.extend_from_slice(format!("{} 0 obj\n{b}\nendobj\n", i + 1).as_bytes()); }
+    let xref = pdf.len(); pdf.extend_from_slice(format!("xref\n0 {}\n0000000000 65535 f \n", bodies.len() + 1).as_bytes());
+    for o in &offs { pdf.extend_from_slice(format!("{o:010} 00000 n \n").as_bytes()); }
+    pdf.extend_from_slice(format!("trailer\n<< /Size {} /Root 1 0 R >>\nstartxref\n{xref}\n%%EOF\n", bodies.len() + 1).as_bytes());
+    let src = dir.join("source.pdf"); std::fs::write(&src, &pdf).unwrap();
+    type Snap = (Vec<String>, [f64; 4], i32);
+    let snap = |path: &std::path::Path| -> Result<Vec<Snap>, String> {
+        let doc = PdfReader::open_document(path).map_err(|e| format!("open: {e}"))?;
+        let n = doc.page_count().map_err(|e| e.to_string())?;
+        let mut out = vec![];
+        for i in 0..n {
+            let page = doc.get_page(i).map_err(|e| format!("get_page: {e}"))?;
+            let mut all = vec![];
+            for st in page.content_streams_with_document(&doc).map_err(|e| format!("content: {e}"))? { all.extend_from_slice(&st); all.push(b'\n'); }
+            let ops = ContentParser::parse(&all).map_err(|e| format!("content parse: {e}"))?;
+            out.push((ops.iter().map(|o| format!("{:?}", o)).collect(), page.media_box, page.rotation.rem_euclid(360)));
+        }
+        Ok(out)
+    };
+    let mut evaluated = 0u64; let bad: std::cell::RefCell<Vec<String>> = std::cell::RefCell::new(vec![]);
+    let base = match snap(&src) { Ok(b) if b.len() == 3 => b, other => { println!("{{\"cmd\":\"pageops\",\"evaluated\":0,\"disagreements\":[{{\"what\":\"source not read as intended\",\"got\":{}}}]}}", js(&format!("{:?}", other))); return; } };
+    // the source itself: page A inherits 400x600 / 90, page B the nearer 200x300 / 180, page C its own 150x250 / 270
+    evaluated += 1;
+    if !(base[0].1 == [0.0, 0.0, 400.0, 600.0] && base[0].2 == 90 && base[1].1 == [0.0, 0.0, 200.0, 300.0] && base[1].2 == 180 && base[2].1 == [0.0, 0.0, 150.0, 250.0] && base[2].2 == 270) {
+        bad.borrow_mut().push(format!("{{\"what\":\"inherited attributes of the source\",\"got\":{}}}", js(&format!("{:?}", base.iter().map(|b| (b.1, b.2)).collect::<Vec<_>>()))));
+    }
+    let expect = |what: String, out: &std::path::Path, perm: &[usize], add_rot: i32, evaluated: &mut u64| {
+        *evaluated += 1;
+        let got = snap(out);
+        let ok = match &got { Ok(g) => g.len() == perm.len() && g.iter().zip(perm.iter()).all(|(x, p)| x.0 == base[*p].0 && x.1 == base[*p].1 && x.2 == (base[*p].2 + add_rot).rem_euclid(360)), Err(_) => false };
+        if !ok && bad.borrow().len() < 6 { bad.borrow_mut().push(format!("{{\"operation\":{},\"expected_pages\":{:?},\"got\":{}}}", js(&what), perm, js(&format!("{:?}", got.map(|g| g.iter().map(|x| (x.0.len(), x.1, x.2)).collect::<Vec<_>>())).chars().take(300).collect::<String>()))); }
+    };
+    for sel in [vec![0usize], vec![1], vec![2], vec![0, 1], vec![1, 0], vec![2, 0], vec![1, 2], vec![0, 1, 2], vec![2, 1, 0]] {
+        let out = dir.join("extract.pdf");
+        match extract_pages_to_file(&src, &sel, &out) { Ok(_) => expect(format!("extract {:?}", sel), &out, &sel, 0, &mut evaluated), Err(e) => { evaluated += 1; bad.borrow_mut().push(format!("{{\"operation\":\"extract {:?}\",\"error\":{}}}", sel, js(&e.to_string()))); } }
+    }
+    { let pattern = dir.join("part_{}.pdf");
+      match split_into_pages(&src, pattern.to_str().unwrap()) { Ok(parts) => { let merged = dir.join("merged.pdf"); match merge_pdf_files(&parts, &merged) { Ok(_) => expect("split into pages, then merge".into(), &merged, &[0, 1, 2], 0, &mut evaluated), Err(e) => { evaluated += 1; bad.borrow_mut().push(format!("{{\"operation\":\"merge\",\"error\":{}}}", js(&e.to_string()))); } } } Err(e) => { evaluated += 1; bad.borrow_mut().push(format!("{{\"operation\":\"split\",\"error\":{}}}", js(&e.to_string()))); } } }
+    { let out = dir.join("reversed.pdf"); match reverse_pdf_pages(&src, &out) { Ok(_) => expect("reverse".into(), &out, &[2, 1, 0], 0, &mut evaluated), Err(e) => { evaluated += 1; bad.borrow_mut().push(format!("{{\"operation\":\"reverse\",\"error\":{}}}", js(&e.to_string()))); } } }
+    for (angle, deg) in [(RotationAngle::None, 0), (RotationAngle::Clockwise90, 90), (RotationAngle::Rotate180, 180), (RotationAngle::Clockwise270, 270)] {
+        let out = dir.join("rotated.pdf"); match rotate_all_pages(&src, &out, angle) { Ok(_) => expect(format!("rotate all by {deg}"), &out, &[0, 1, 2], deg, &mut evaluated), Err(e) => { evaluated += 1; bad.borrow_mut().push(format!("{{\"operation\":\"rotate {deg}\",\"error\":{}}}", js(&e.to_string()))); } }
+    }
+    // page boxes with a non-zero origin and a /CropBox (named in the property): reported separately
+    let mut origin_wrong: Vec<String> = vec![];
+    {
+        let b2: Vec<String> = vec!["<< /Type /Catalog /Pages 2 0 R >>".into(), "<< /Type /Pages /Kids [3 0 R] /Count 1 >>".into(),
+            "<< /Type /Page /Parent 2 0 R /MediaBox [10 20 210 320] /CropBox [15 25 200 300] /Contents 4 0 R >>".into(), stream("q Q")];
+        let mut pdf = b"%PDF-1.4\n".to_vec(); let mut offs = vec![];
+        for (i, b) in b2.iter().enumerate() { offs.push(pdf.len()); pdf.extend_from_slice(format!("{} 0 obj\n{b}\nendobj\n", i + 1).as_bytes()); }
+        let xref = pdf.len(); pdf.extend_from_slice(b"xref\n0 5\n0000000000 65535 f \n");
+        for o in &offs { pdf.extend_from_slice(format!("{o:010} 00000 n \n").as_bytes()); }
+        pdf.extend_from_slice(format!("trailer\n<< /Size 5 /Root 1 0 R >>\nstartxref\n{xref}\n%%EOF\n").as_bytes());
+        let src2 = dir.join("origin.pdf"); std::fs::write(&src2, &pdf).unwrap();
+        let out = dir.join("origin_out.pdf");
+        let boxes = |p: &std::path::Path| -> Option<([f64; 4], Option<[f64; 4]>)> { let d = PdfReader::open_document(p).ok()?; let pg = d.get_page(0).ok()?; Some((pg.media_box, pg.crop_box)) };
+        if extract_pages_to_file(&src2, &[0], &out).is_ok() {
+            let (a, b) = (boxes(&src2), boxes(&out));
+            if a != b || a.map(|x| x.0) != Some([10.0, 20.0, 210.0, 320.0]) { origin_wrong.push(format!("{{\"operation\":\"extract\",\"source_boxes\":{},\"output_boxes\":{}}}", js(&format!("{:?}", a)), js(&format!("{:?}", b)))); }
+        } else { origin_wrong.push("{\"operation\":\"extract\",\"error\":true}".to_string()); }
+    }
+    let _ = std::fs::remove_dir_all(&dir);
+    println!("{{\"cmd\":\"pageops\",\"bound\":\"one 3-page source (multi-stream contents, two levels of inherited MediaBox/Rotate, own attributes); 9 extractions, split+merge, reverse, 4 rotations; one page with MediaBox [10 20 210 320] and a CropBox\",\"evaluated\":{},\"disagreements\":[{}],\"origin_wrong\":{},\"origin_examples\":[{}]}}", evaluated + 1, bad.borrow().join(","), origin_wrong.len(), origin_wrong.join(","));
+}
+
 fn cmd_fmt() {
     // Ec: the concrete contracts of the R6 formatting stubs used by Verus units, over all 256 bytes
     let hd = |n: u8| if n < 10 { b'0' + n } else { b'A' + n - 10 };
@@ -1273,6 +1361,7 @@ fn main() {
         Some("a85hex-roundtrip") => cmd_a85hex_roundtrip(args.get(2).and_then(|s| s.parse().ok()).unwrap_or(4)),
         Some("fmt") => cmd_fmt(),
         Some("opnames") => cmd_opnames(),
+        Some("pageops") => cmd_pageops(),
         Some("cmap") => cmd_cmap(args.get(2).and_then(|s| s.parse().ok()).unwrap_or(2)),
         Some("pagetree") => cmd_pagetree(args.get(2).and_then(|s| s.parse().ok()).unwrap_or(2)),
         Some("hostile-inputs") => cmd_hostile_inputs(),
